@@ -1,6 +1,7 @@
 package harness
 
 import (
+	"bytes"
 	"crypto/sha256"
 	"encoding/binary"
 	"fmt"
@@ -48,6 +49,9 @@ type Config struct {
 	// pausing ("pause") its (repeated, running) context from inside the response callback - "enough
 	// values collected" - through the keeper API, as a host module may do
 	ReactResp string `json:"react_in_response_callback,omitempty"`
+	// ReactSiblings: on the "cannot pay" notification the module also kills every other running repeated
+	// context it owns ("this consumer is out of money: stop all its feeds")
+	ReactSiblings bool `json:"reactive_module_kills_siblings,omitempty"`
 	// BaseDenom: the module's base denomination parameter ("" = "stake", the only coin that exists in
 	// the harness's bank); changed only by a governance parameter change during the history
 	BaseDenom string `json:"base_denom,omitempty"`
@@ -108,6 +112,13 @@ type CallbackRec struct {
 	// React / ReactOK: what the module did to its context from inside the callback, and whether the keeper accepted it
 	React   string `json:"react,omitempty"`
 	ReactOK bool   `json:"react_ok,omitempty"`
+	// Killed: contexts the module killed (successfully) from inside this callback, with the batch counter each had then
+	Killed []KilledCtx `json:"killed,omitempty"`
+}
+
+type KilledCtx struct {
+	Ctx     string `json:"ctx"`
+	Counter uint64 `json:"counter"`
 }
 
 // StepRec is everything observed about one executed step.
@@ -316,12 +327,30 @@ func (w *World) respCallback(ctx sdk.Context, id tmbytes.HexBytes, outs []string
 }
 
 func (w *World) stateCallback(ctx sdk.Context, id tmbytes.HexBytes, cause string) {
-	w.cbs = append(w.cbs, CallbackRec{Kind: "state", Ctx: hx(id), Cause: cause})
-	if w.cfg.Reactive {
-		if rc, found := w.k.GetRequestContext(ctx, id); found && rc.Repeated {
-			_ = w.k.KillRequestContext(ctx, id, rc.Consumer)
+	rec := CallbackRec{Kind: "state", Ctx: hx(id), Cause: cause}
+	kill := func(cid tmbytes.HexBytes) {
+		if rc, found := w.k.GetRequestContext(ctx, cid); found && rc.Repeated && rc.ModuleName == VMod && rc.State != types.COMPLETED {
+			if w.k.KillRequestContext(ctx, cid, rc.Consumer) == nil {
+				rec.Killed = append(rec.Killed, KilledCtx{Ctx: hx(cid), Counter: rc.BatchCounter})
+			}
 		}
 	}
+	if w.cfg.Reactive {
+		kill(id)
+	}
+	if w.cfg.ReactSiblings {
+		var ids []tmbytes.HexBytes
+		w.k.IterateRequestContexts(ctx, func(cid tmbytes.HexBytes, rc types.RequestContext) bool {
+			if !bytes.Equal(cid, id) && rc.State == types.RUNNING {
+				ids = append(ids, append(tmbytes.HexBytes{}, cid...))
+			}
+			return false
+		})
+		for _, cid := range ids {
+			kill(cid)
+		}
+	}
+	w.cbs = append(w.cbs, rec)
 }
 
 func (w *World) modService(ctx sdk.Context, input string) (string, string) {
